@@ -629,11 +629,17 @@ func (ab *rulesPair) adaptGroups(lb []string) {
 	}
 }
 
-// Rename rules in b such that names are unique in respect to rules in a.
+// Rename rules in b such that names are unique in respect to rules in a
+// and to other rules in b.
 func (ab *rulesPair) genUniqRuleNames() {
 	aNames := make(map[string]bool)
+	used := make(map[string]bool)
 	for _, ru := range ab.a.rules {
 		aNames[ru.Name] = true
+		used[ru.Name] = true
+	}
+	for _, ru := range ab.b.rules {
+		used[ru.Name] = true
 	}
 	for _, ru := range ab.b.rules {
 		name := ru.Name
@@ -642,17 +648,26 @@ func (ab *rulesPair) genUniqRuleNames() {
 		}
 		for i := 1; ; i++ {
 			new := fmt.Sprintf("%s-%d", name, i)
-			if !aNames[new] {
+			if !used[new] {
 				ru.Name = new
+				used[new] = true
 				break
 			}
 		}
 	}
 }
 
-// Rename groups in b such that names are unique in respect to groups in a.
+// Rename groups in b such that names are unique in respect to groups in a
+// and to other groups in b.
 func (ab *rulesPair) genUniqGroupNames() {
 	aGroups := ab.a.groups
+	used := make(map[string]bool)
+	for _, g := range ab.a.vsys.AddressGroups {
+		used[g.Name] = true
+	}
+	for _, g := range ab.b.vsys.AddressGroups {
+		used[g.Name] = true
+	}
 	for _, g := range ab.b.vsys.AddressGroups {
 		name := g.Name
 		if aGroups[name] == nil {
@@ -660,8 +675,9 @@ func (ab *rulesPair) genUniqGroupNames() {
 		}
 		for i := 1; ; i++ {
 			new := fmt.Sprintf("%s-%d", name, i)
-			if aGroups[new] == nil {
+			if !used[new] {
 				g.Name = new
+				used[new] = true
 				break
 			}
 		}
